@@ -369,8 +369,11 @@ fn run_case(case: &Case) -> Outcome {
                 *helper_reload.lock().unwrap() = Some(val2.clone());
                 let calls = Arc::new(std::sync::atomic::AtomicU32::new(0));
                 let (rq, kk) = (req_tx.clone(), 1 + (*k as u32 % 4));
+                let fired = Arc::new(std::sync::atomic::AtomicBool::new(false));
+                let fired2 = fired.clone();
                 *vp_sub::REGISTER_HOOK.lock().unwrap() = Some(Arc::new(move || {
                     if calls.fetch_add(1, std::sync::atomic::Ordering::SeqCst) + 1 == kk {
+                        fired2.store(true, std::sync::atomic::Ordering::SeqCst);
                         let _ = rq.lock().unwrap().send(254);
                         // give the helper time to store its value while this rebuild is under way
                         std::thread::sleep(std::time::Duration::from_millis(3));
@@ -384,8 +387,11 @@ fn run_case(case: &Case) -> Outcome {
                     Ok(false) => fail!(i, "reload failed although the collector is alive", "Err returned"),
                     Err(e) => fail!(i, "panic: reload", "{e}"),
                 }
-                // if no callsite was registered yet the hook never fired: run the helper now
-                if helper_reload.lock().unwrap().is_some() {
+                // if no callsite was registered yet the hook never fired: run the helper now.
+                // (Decided by the hook's own flag, not by whether the helper has already taken
+                // the value: a slow helper would otherwise be asked twice and its second
+                // "done" would be mistaken for the answer to a later request.)
+                if !fired.load(std::sync::atomic::Ordering::SeqCst) {
                     let _ = req_tx.lock().unwrap().send(254);
                 }
                 if done_rx.lock().unwrap().recv_timeout(std::time::Duration::from_secs(10)).is_err() {
@@ -471,7 +477,7 @@ impl Property for C12 {
         Isolation::Child
     }
     fn cases(&self, tier: Tier) -> u32 {
-        tier.pick(6_000, 150_000)
+        tier.pick(12_000, 150_000)
     }
     fn strategy(&self, tier: Tier) -> BoxedStrategy<Case> {
         let t = || 0u8..2;
